@@ -31,7 +31,7 @@ from hypothesis import strategies as st
 
 from .. import api_table, corpus
 from ..core import VERIF_DIR, CaseInfo, HarnessError, Reject, SubCheck, Violation, innermost_pharmpy_frame
-from ..snap import describe, diff, snapshot
+from ..snap import describe, diff, frame_digest, snapshot
 
 PROPERTY = 'C06'
 LEVEL = 'exploration'
@@ -329,6 +329,20 @@ def hash_difference(a, b):
     """name of the first hashed component of Model.__hash__ whose hash differs (or raises)"""
     for c in COMPONENTS:
         x, y = getattr(a, c, None), getattr(b, c, None)
+        if c == '_initial_individual_estimates':
+            # a DataFrame: Model.__hash__ hashes its values; compared here through the snapshot digest
+            # (attribution only: the same value hash that Model.__hash__ uses for DataFrames)
+            try:
+                from pharmpy.internals.df import hash_df_runtime
+
+                dx = hash_df_runtime(x) if x is not None else None
+                dy = hash_df_runtime(y) if y is not None else None
+            except Exception:
+                dx = {k: v for k, v in frame_digest(x, 'iie').items() if k != 'iie-identity'}
+                dy = {k: v for k, v in frame_digest(y, 'iie').items() if k != 'iie-identity'}
+            if dx != dy:
+                return 'initial_individual_estimates'
+            continue
         try:
             hx, hy = hash(x), hash(y)
         except Exception:
@@ -571,6 +585,22 @@ def _short(x, n=160):
 # run
 
 
+def _start_of(spec):
+    """start model of a spec: index (generated specs) or name (hand-written known / regress specs)"""
+    starts = start_names()
+    m = spec.get('m', 0)
+    if isinstance(m, str):
+        return m if m in starts else starts[0]
+    return starts[int(m) % len(starts)] if isinstance(m, (int, float)) else starts[0]
+
+
+def _fn_of(x, pool):
+    """table function of a step: index into the pool (generated specs) or its name"""
+    if isinstance(x, str):
+        return x if x in api_table.TABLE else pool[0]
+    return pool[abs(int(x)) % len(pool)] if isinstance(x, (int, float)) else pool[0]
+
+
 def run_api(spec):
     return _run(spec, 'api')
 
@@ -583,7 +613,7 @@ def _run(spec, mode):
     names = api_table.names()
     tnames = api_table.transform_names()
     starts = start_names()
-    start = starts[int(spec.get('m', 0)) % len(starts)]
+    start = _start_of(spec)
     steps = [s for s in (spec.get('steps') or []) if isinstance(s, list) and len(s) >= 2][:3]
     if not steps:
         raise Reject('no steps')
@@ -599,8 +629,7 @@ def _run(spec, mode):
     for i, stpec in enumerate(steps):
         last = i == len(steps) - 1
         pool = names if last else tnames
-        fi = stpec[0] if isinstance(stpec[0], int) else 0
-        name = pool[abs(fi) % len(pool)]
+        name = _fn_of(stpec[0], pool)
         ints = stpec[1] if isinstance(stpec[1], list) else []
         stp = judged_call(M, name, ints, twice or mode == 'eqhash', col, evals, mode)
         chain.append(f'{name}({stp.kw})' + ('' if stp.returned else f' !{stp.exc}'))
@@ -676,8 +705,7 @@ def chain_names(spec):
     out = []
     for i, stp in enumerate(steps):
         pool = names if i == len(steps) - 1 else tnames
-        fi = stp[0] if isinstance(stp[0], int) else 0
-        out.append(pool[abs(fi) % len(pool)])
+        out.append(_fn_of(stp[0], pool))
     return out
 
 
